@@ -165,6 +165,12 @@ func Flatten(gs []Group, names ...string) []world.Op {
 
 // FullSeeds: non-initial starting states that place the system where interesting transitions are.
 func FullSeeds() map[string][]world.Op {
+	m := fullSeeds()
+	m["mesh+mutual-chains"] = append(append([]world.Op{}, m["mesh"]...), Resolver("db", ResolverOpt{Failover: "web"}).Upsert(), Resolver("web", ResolverOpt{Redirect: "db"}).Upsert())
+	return m
+}
+
+func fullSeeds() map[string][]world.Op {
 	return map[string][]world.Op{
 		"empty": nil,
 		"catalog+session": {RegNode(FN1), RegService(FN1, SvcSpec{Name: "old", Port: 1}), DeregService("n1", "old", ""), // an early service extinction
@@ -190,6 +196,11 @@ func FullSeeds() map[string][]world.Op {
 			IxnMutationUpsert("db", "web", structs.IntentionActionAllow), IxnMutationLegacyCreate("i4", "api", "web", structs.IntentionActionAllow),
 			Intentions("db", IxnSrc{Name: "web", Peer: "p1", Action: structs.IntentionActionDeny}).Upsert(),
 			ResourceWrite("r1", "uid-1", "a", IdxZero), ResourceWrite("r1", "uid-1", "b", IdxCurrent), ResourceWrite("r2", "uid-3", "a", IdxZero)},
+		// a key below a prefix that has an older tombstone, so that a recursive delete of the parent shows in list indexes
+		"kv-tree": {KVSpec{Verb: api.KVSet, Key: "a/b", Val: "1"}.Op(), KVSpec{Verb: api.KVDelete, Key: "a/b"}.Op(), KVSpec{Verb: api.KVSet, Key: "a/b", Val: "2"}.Op(),
+			KVSpec{Verb: api.KVSet, Key: "a", Val: "x"}.Op()},
+		// two chains that refer to each other, so that one config entry write can break both at once
+		"mesh+mutual-chains": nil,
 		"legacy-intentions": {LegacyIxnSet("i1", "db", "web", structs.IntentionActionAllow, false), LegacyIxnSet("i2", "*", "web", structs.IntentionActionDeny, false)},
 	}
 }
